@@ -52,6 +52,7 @@ extern SimConfig sim_cfg;
 
 /* ---- core ---- */
 uint64_t sim_hash(uint64_t seed, uint64_t kind, uint64_t obj, uint64_t n);
+uint8_t sim_tagb(uint64_t w, uint64_t off);
 /* does fault `kind` fire for the n-th call on logical object obj? param_out receives
  * a deterministic 63-bit parameter (for sizes etc.) */
 int sim_decide(int kind, uint32_t obj, uint64_t n, int64_t *param_out);
